@@ -287,7 +287,9 @@ func (w *World) altNumbering(n *Node, st *State, pos uint64) (H, bool) {
 }
 
 // inForestRO: does place ro lie inside some tree of a forest with n leaves?
-func (w *World) inForestRO(ro RO, n uint64) bool {
+func (w *World) inForestRO(ro RO, n uint64) bool { return inForestRO(ro, n) }
+
+func inForestRO(ro RO, n uint64) bool {
 	lo := ro.O << ro.R
 	for _, t := range treesOf(n) {
 		if ro.R <= t.h && lo >= t.lo && lo < t.lo+(uint64(1)<<t.h) {
